@@ -39,6 +39,7 @@ class Ctx:
         self.used_contracts = set()
         self.inlined = set()
         self.assumed_ext = set()
+        self.bounded = []
         self.depth = 0
         self.where = ""
 
